@@ -10,7 +10,7 @@ Require Import Zrs.model.SeqNorm Zrs.proofs.C02_O1.
 Require Import Zrs.proofs.C02_HufSide Zrs.proofs.C02_O2Table.
 Require Import Zrs.model.HufEnc Zrs.proofs.C13_Agree Zrs.proofs.C02_O2Huffman Zrs.proofs.C02_O2Complete.
 Require Import Permutation Zrs.proofs.C02_O2Shape Zrs.proofs.C02_O2Treeless.
-Require Import Zrs.model.BitStream Zrs.model.SeqEnc Zrs.model.FseEnc Zrs.model.FseNorm Zrs.model.WeightEnc Zrs.model.HufCounts Zrs.proofs.C13_Direct Zrs.proofs.C13_WeightModel Zrs.proofs.C02_O2Counts Zrs.proofs.C02_O2Compressor.
+Require Import Zrs.model.BitStream Zrs.model.SeqEnc Zrs.model.FseEnc Zrs.model.FseNorm Zrs.model.WeightEnc Zrs.model.HufCounts Zrs.proofs.C13_Direct Zrs.proofs.C13_WeightModel Zrs.proofs.C02_O2Counts Zrs.proofs.C02_O2Compressor Zrs.model.LitComp Zrs.proofs.C02_LitPart.
 Open Scope Z_scope.
 
 (** level Uncompressed: every input, every fragmentation of the source reads, every block size up to 128 KiB, every
@@ -341,6 +341,20 @@ Proof.
 Qed.
 
 
+(** the compressor's own literals part, block by block (model/LitComp.v: raw literals, a new table with either
+    description, or the remembered table): if the decoder holds the table built from the description the remembered
+    table was written with, the section is read back as exactly the literals and the same holds afterwards *)
+Theorem C02_literals_part_meets_O2 : forall prev lits h hdr payload prev',
+  tab_rel prev h -> hinv h -> Forall (fun s => 0 <= s <= 255) lits -> zlen lits <= MAX_BLOCK_SIZE ->
+  literals_part prev lits = ROk (hdr, payload, prev') ->
+  exists ht', lit_ok h lits hdr payload ht' /\ tab_rel prev' ht' /\ hinv ht'.
+Proof. exact literals_part_meets_O2. Qed.
+
+(** the relation holds at the start of every frame (nothing remembered, a new decoder) *)
+Example C02_literals_part_initially : tab_rel None huf_new /\ hinv huf_new.
+Proof. split; [intros codes E; discriminate|reflexivity]. Qed.
+
+Print Assumptions C02_literals_part_meets_O2.
 Print Assumptions C02_compressor_huffman_section_from_the_literals.
 Print Assumptions C02_weights_by_rank_are_an_assignment_of_the_shape.
 Print Assumptions C02_treeless_huffman_literals_meet_O2.
